@@ -333,7 +333,7 @@ static void DecodeAdr(tStrComp* pArg, Word Mask) {
                 H32 >>= 16;
                 if (H32 == 0) {
                     AdrMode = ModImm;
-                } else if ((H32 == 1) || (H32 == 0xffff)) {
+                } else if (H32 == 0xffff) {
                     AdrMode = ModImmEx;
                 } else {
                     WrError(ErrNum_UndefOpSizes);
